@@ -379,8 +379,8 @@ class FakeVCS:
         return rel
 
     def set_out(self, key, text):
-        with open(os.path.join(self.ctl, "out", key), "w") as f:
-            f.write(text)
+        with open(os.path.join(self.ctl, "out", key), "wb") as f:
+            f.write(text if isinstance(text, bytes) else text.encode("utf-8"))
 
     def fail_match(self, lines):
         with open(os.path.join(self.ctl, "fail_match"), "w") as f:
